@@ -17,7 +17,14 @@ def lines(repo, read, find, report):
     wn, wd = lit("c17_param_eps_weak", r"(?s)struct\s+DefaultEpsilon<T,\s*relativeWeak>.*?epsilon\(\)\s*\*\s*([0-9][0-9.eE+-]*)\s*;", "8")
     sn, sd = lit("c17_param_eps_strong", r"(?s)struct\s+DefaultEpsilon<T,\s*relativeStrong>.*?epsilon\(\)\s*\*\s*([0-9][0-9.eE+-]*)\s*;", "8")
     an, ad = lit("c17_param_eps_abs", r"(?s)struct\s+DefaultEpsilon<T,\s*absolute>.*?epsilon\(\)\s*,\s*([0-9][0-9.eE+-]*)\s*\)", "1/1000000")
-    return ["Definition c17_param_default_cstyle : nat := %d." % c,
+    mh = read("dune/common/math.hh")
+    sneg = find("c17_param_sign_neg", mh, r"return\s*\(\s*val\s*<\s*0\s*\?\s*(-?\d+)\s*:\s*-?\d+\s*\)", -1, int)
+    spos = find("c17_param_sign_nonneg", mh, r"return\s*\(\s*val\s*<\s*0\s*\?\s*-?\d+\s*:\s*(-?\d+)\s*\)", 1, int)
+    bthen = find("c17_param_binom_nn_then", mh, r"\(\s*n\s*>=\s*0\s*\?\s*(-?\d+)\s*:\s*-?\d+\s*\)", 1, int)
+    belse = find("c17_param_binom_nn_else", mh, r"\(\s*n\s*>=\s*0\s*\?\s*-?\d+\s*:\s*(-?\d+)\s*\)", 0, int)
+    extra = ["Definition c17_param_sign_neg : Z := (%d)%%Z.  Definition c17_param_sign_nonneg : Z := (%d)%%Z." % (sneg, spos),
+             "Definition c17_param_binom_nn_then : Z := (%d)%%Z.  Definition c17_param_binom_nn_else : Z := (%d)%%Z." % (bthen, belse)]
+    return extra + ["Definition c17_param_default_cstyle : nat := %d." % c,
             "Definition c17_param_default_rstyle : nat := %d." % r,
             "Definition c17_param_eps_weak_num : Z := %d%%Z.  Definition c17_param_eps_weak_den : Z := %d%%Z." % (wn, wd),
             "Definition c17_param_eps_strong_num : Z := %d%%Z.  Definition c17_param_eps_strong_den : Z := %d%%Z." % (sn, sd),
